@@ -171,3 +171,20 @@ def _sectioned_cache(_features=None, _cached=(), _dirty=False, _pre_origin=None,
 for _label in ("PreOrigin", "CrossOrigin", "PostOrigin"):
     REAL[_label] = _plain_cache
 REAL["SectionedCache"] = _sectioned_cache
+
+
+# ---- rule text tokens (C02): a token of a given kind, put together field by field
+def _token_kind(value):
+    from antismash.common.hmm_rule_parser.rule_parser import TokenTypes
+    return TokenTypes(value)
+
+
+def _token_of_kind(token_text, type, aliased):  # pylint: disable=redefined-builtin
+    from antismash.common.hmm_rule_parser.rule_parser import Token
+    token = object.__new__(Token)
+    token.__dict__.update({"token_text": token_text, "type": type, "line_number": 1, "position": 1, "aliased": aliased})
+    return token
+
+
+REAL["TokenKind"] = _token_kind
+REAL["TokenOfKind"] = _token_of_kind
